@@ -5,7 +5,10 @@ import NLE.Model.Classify
 import NLE.Model.Backoff
 import NLE.Model.Validate
 import NLE.Driver.Pure
+import NLE.Theorems.C01
 import NLE.Theorems.C04
+import NLE.Theorems.C05
+import NLE.Theorems.C10
 import NLE.Theorems.C15
 import NLE.Theorems.C16
 import NLE.Theorems.C17
